@@ -111,6 +111,16 @@ def correspond(ctx):
     jobs.append(("c01adjacent", HEADER + "Open Scope nat_scope.\nDefinition cases : list (list elem * list bool) := %s.\n" % U.lst(
         "(%s, %s)" % (U.elems(c["els"]), U.bools(c["adj"])) for c in adj) + "Eval vm_compute in (failing adjacent_case_ok cases).\n"))
     names.append(("adjacent", adj))
+    cols = res.get("colors", [])
+    opt = lambda c: "None" if c < 0 else "(Some %d)" % c
+    jobs.append(("c01colors", HEADER + "Open Scope nat_scope.\nDefinition cases : list color_case := %s.\n" % U.lst(
+        "(%s, %s, %s)" % (U.lst(opt(x) for x in c["cm"]), U.nats(c["sorted"]), U.nats(c["indexptr"])) for c in cols) +
+        "Eval vm_compute in (failing color_case_ok cases).\n"))
+    names.append(("colors", cols))
+    for c in cols:   # the hypothesis colours_match of C01_pair_coverage: coloured elements = support
+        if [x >= 0 for x in c["cm"]] != c["support"]:
+            ctx.corr["disagreements"] += 1
+            ctx.problem("correspondence", "space.color_map colours an element outside the support or misses one: %s" % c)
     outs = U.eval_many(ctx, jobs, workers=4, timeout=1500)
     n_eval, nontriv = 0, 0
     hist = {"get_arrays_cases": len(res["arrays"]), "rule_orders": sorted(int(o) for o in res["rule"]), "rule_orders_structural": sorted(int(o) for o in res.get("rule2", {})),
@@ -134,7 +144,13 @@ def correspond(ctx):
         if len(nl) != 1:
             ctx.problem("correspondence", "could not parse the %s comparison output" % kind, out[-1500:])
             continue
-        if kind == "adjacent":
+        if kind == "colors":
+            n_eval += len(data)
+            hist["get_elements_by_color_cases"] = len(data)
+            for i in nl[0]:
+                ctx.corr["disagreements"] += 1
+                ctx.problem("correspondence", "get_elements_by_color() and the model disagree: color_map %s" % data[i]["cm"])
+        elif kind == "adjacent":
             n_eval += len(data)
             hist["elements_adjacent_grids"] = len(data)
             for i in nl[0]:
